@@ -8,9 +8,9 @@ checks_for() {
   case "$1" in
     rename_write_queue|keys_returns_frozenset) echo "C02 C03 C04" ;;
     rename_toc_eof|mapblocks_always_rescans) echo "C02 C03 C04" ;;
-    lockname_sha256) echo "C04" ;;
+    lockname_sha256|lock_polled_once_a_second) echo "C04" ;;
     rename_conf_id|iter_is_a_list_iterator|getitem_negative_index_normalised) echo "C14" ;;
-    runner_captures_through_pipes) echo "C17 C18" ;;
+    runner_captures_through_pipes|runner_adds_job_id_to_the_environment|runner_writes_a_marker_file) echo "C17 C18" ;;
     readers_take_the_exclusive_lock|writing_flushes_before_the_body_too) echo "C02 C03 C04" ;;
     scratch_prefix) echo "C17 C18" ;;
     mol2_error_is_valueerror) echo "C10" ;;
